@@ -73,6 +73,11 @@ def run(ctx):
     for fmt in F.TAGGABLE:
         samples = fmt.samples[:1] if ctx.quick else fmt.samples[:3]
         todo = [(sname, F.sample_bytes(ctx.repo, sname)) for sname in samples]
+        # loading is cheap and every sample has its own header structures (VBRI / Xing / LAME tables, extended headers,
+        # multi-page comments ...): all samples are loaded under faults, the writing operations run on the first ones
+        load_only = [(sname, F.sample_bytes(ctx.repo, sname)) for sname in fmt.samples if sname not in samples]
+        load_only = [x for x in load_only if len(x[1]) < 400000]
+        load_only_names = {x[0] for x in load_only}
         # synthesised layouts: MP4 atom layouts (64-bit headers, split media, fragments), a few tails for ID3-framed files
         synth = containers.synth_samples(ctx, fmt)
         if fmt.kind == "MP4":
@@ -80,10 +85,10 @@ def run(ctx):
             todo += synth if not ctx.quick else [x for x in synth if "-wide" in x[0]] + synth[:1]
         elif synth:
             todo += synth[:2] if ctx.quick else synth[:6]
-        for sname, data in todo:
+        for sname, data in todo + load_only:
             if walkers.walk(fmt.kind, data).errors:
                 continue
-            for op in ("load", "save-grow", "save-shrink", "delete", "module-delete"):
+            for op in (("load",) if sname in load_only_names else ("load", "save-grow", "save-shrink", "delete", "module-delete")):
                 try:
                     go, expect = prepare(fmt, data, op)
                 except Exception as e:
@@ -129,7 +134,7 @@ def run(ctx):
                 rsel = reads if len(reads) <= (40 if ctx.quick else 400) else rng.sample(reads, 40 if ctx.quick else 400)
                 for i in rsel:
                     want = int(ref_log[i][1:]) if ref_log[i][1:].lstrip("-").isdigit() else 0
-                    for short in sorted({0, 1, max(0, want // 2)}):
+                    for short in sorted({0, 1, max(0, want // 2), max(0, want - 1)}):
                         if want < 0 or short < want:
                             plans.append(("short", i, short))
                 for kind, i, short in plans:
